@@ -15,7 +15,8 @@ open Proto Eval
                    `n <raw>` | `b true` | `b false` | `s <hex>` | `err` | `opaque` (depends on float64 arithmetic)
     `y <bits> <z> <hex>`  value pass of the FLOAT evaluators, computed by the model (`Model/EvalFloat.lean` over the
                    IEEE-754 arithmetic of `Model/EvalSoftFloat.lean`): `NewFloatEvaluator[float<bits>](resolver, z)`
-                   -> `n <bit pattern>` | `n nan` | `b …` | `s <hex>` | `err` | `opaque` (outside the model) -/
+                   -> `n <bit pattern>` | `n nan` | `n 0` (a zero of either sign: the property does not constrain the sign
+                   of a zero result) | `b …` | `s <hex>` | `err` | `opaque` (outside the model) -/
 
 def fixedOps : List Op := opsOf Facts.fixedOperators
 def floatOps : List Op := opsOf Facts.floatOperators
@@ -120,7 +121,7 @@ def step (st : St) (line : String) : St × String :=
     match hexBytes? h, (if b == "64" then some SoftFloat.f64 else if b == "32" then some SoftFloat.f32 else none) with
     | some s, some fm =>
       (st, match EvalFloat.evaluate ⟨fm, z == "1"⟩ floatOps floatFns (some valueResolve) (driverBudget s + 1) s with
-        | .ok (.num x) => if SoftFloat.isNaN fm x then "n nan" else "n " ++ toString x
+        | .ok (.num x) => if SoftFloat.isNaN fm x then "n nan" else if SoftFloat.isZero fm x then "n 0" else "n " ++ toString x
         | .ok (.bool b) => if b then "b true" else "b false"
         | .ok (.str t) => "s " ++ bytesHex t
         | .err => "err"
